@@ -60,6 +60,8 @@ def Out.isTimeout : Out → Bool
 structure Cfg where
   noTerminate : Bool := noTerminateDefault   -- Settings.NO_TERMINATE_ON_TIMEOUT
   closeWakes : Bool := true                  -- per transport: does close() end a read blocked in another thread
+  restoreTimer : Bool := restoresTimer       -- signal branch: previously armed ITIMER_REAL re-armed in the finally
+                                             -- (generated from the source; false before the fix for finding F18)
 deriving Repr, DecidableEq
 
 /-- `_handle_timeout` (l.118-142): close the transport unless NO_TERMINATE_ON_TIMEOUT, then raise
@@ -114,16 +116,57 @@ def fireS (cfg : Cfg) (p : Proc) (at_ : Nat) : Proc × Option Out :=
 
 /-- the sync `decorate` for the signal mechanism around a wrapped function `f` (l.212-215, 233-247):
     `if not timeout: return f()`; `old = signal.signal(SIGALRM, callback)`;
-    `setitimer(ITIMER_REAL, t)`; `try: return f() finally: setitimer(ITIMER_REAL, 0);
-    signal.signal(SIGALRM, old)`.  `f` may itself contain wrapped calls and may return, raise or be
-    interrupted by the alarm at any depth. -/
-def wrapS (t : Nat) (name : String) (f : Proc → Option (Proc × Out)) (p : Proc) : Option (Proc × Out) :=
+    `previous = setitimer(ITIMER_REAL, t)`; `try: return f() finally: setitimer(ITIMER_REAL, 0);
+    signal.signal(SIGALRM, old)` and, when `cfg.restoreTimer`, `setitimer(ITIMER_REAL, max(previous -
+    elapsed, tiny))` if something was armed before: the previous alarm is pending again with its old
+    deadline, and if that deadline has passed meanwhile it goes off at once — with the handler that was
+    just restored, replacing whatever the call was about to return or raise.
+    `f` may itself contain wrapped calls and may return, raise or be interrupted by the alarm at any depth.
+    (Timers are one-shot deadlines; the interval of a periodic timer is passed through by the code and
+    not modelled.) -/
+def wrapS (cfg : Cfg) (t : Nat) (name : String) (f : Proc → Option (Proc × Out)) (p : Proc) : Option (Proc × Out) :=
   if t = 0 then f p
   else
     let old := p.handler
     match f { p with handler := .scrapli (message name), timer := some (p.now + t) } with
     | none => none
-    | some (p2, o) => some ({ p2 with timer := none, handler := old }, o)   -- finally
+    | some (p2, o) =>
+      let p3 := { p2 with timer := none, handler := old }   -- finally
+      if cfg.restoreTimer then
+        match p.timer with
+        | none => some (p3, o)
+        | some D =>
+          if D ≤ p3.now then
+            match fireS cfg p3 D with
+            | (p4, some o') => some (p4, o')     -- old handler was scrapli's (an enclosing wrapper): it raises
+            | (p4, none) => some (p4, o)         -- a foreign handler runs and returns
+          else some ({ p3 with timer := some D }, o)
+      else some (p3, o)
+
+/-! ### the one interleaving `runS` leaves out
+
+`wrapS` treats the wrapper's own prologue and `finally` as atomic, and `runS` lets an alarm that is due
+exactly when a read ends go off inside that read.  In the real code the wrapped call can return on the
+tick of its own deadline and the SIGALRM is then delivered INSIDE the wrapper's `finally`, before
+`setitimer(ITIMER_REAL, 0)`: scrapli's handler closes the transport and raises ScrapliTimeout from within
+the `finally`.  `wrapSRaced` is the wrapper under exactly that interleaving.  `guarded` = the handler
+restore (and the re-arming of the previous timer) sit in an OUTER `finally` that still runs when the
+inner one is left by that exception (generated `epilogueGuarded`); unguarded, the rest of the `finally`
+is skipped. -/
+
+/-- the wrapped function, followed by our own alarm going off right after it returned -/
+def racedBody (cfg : Cfg) (name : String) (f : Proc → Option (Proc × Out)) : Proc → Option (Proc × Out) :=
+  fun p1 =>
+    match f p1 with
+    | none => none
+    | some (p2, _) =>
+      let (c, o') := handleTimeout cfg p2.closed (message name)
+      some ({ p2 with closed := c, timer := none }, o')
+
+def wrapSRaced (cfg : Cfg) (guarded : Bool) (t : Nat) (name : String) (f : Proc → Option (Proc × Out)) (p : Proc) :
+    Option (Proc × Out) :=
+  if guarded then wrapS cfg t name (racedBody cfg name f) p
+  else racedBody cfg name f { p with handler := .scrapli (message name), timer := some (p.now + t) }
 
 /-- `a; k`: `k` runs only when `a` returned -/
 def seqS (r : Option (Proc × Out)) (k : Proc → Option (Proc × Out)) : Option (Proc × Out) :=
@@ -151,12 +194,12 @@ def runS (cfg : Cfg) : Prog → Proc → Option (Proc × Out)
         | (p', some o) => some (p', o)
         | (p', none) => runS cfg k { p' with now := p.now + d }
       else runS cfg k { p with now := p.now + d }
-  | .call t name body k, p => seqS (wrapS t name (runS cfg body) p) (runS cfg k)
+  | .call t name body k, p => seqS (wrapS cfg t name (runS cfg body) p) (runS cfg k)
   | .spawn body k, p => seqS (runS cfg body p) (runS cfg k)
 
 /-- the decorated call on its own -/
 def wrapSignal (cfg : Cfg) (t : Nat) (name : String) (body : Prog) (p : Proc) : Option (Proc × Out) :=
-  wrapS t name (runS cfg body) p
+  wrapS cfg t name (runS cfg body) p
 
 /-! ## worker-thread mechanism — `_multiprocessing_timeout`, decorators.py:106-115 -/
 
